@@ -29,6 +29,9 @@ class LeafScenario(Scenario):
             (zero if empty else positive).add(f"{who}.entries")
         if not (len(v.d.t) == 1 and () in v.d.t and v.d.t[()] > 0):
             return None
+        def is_pos(sym):
+            # entries of any non-empty operand (also the operands A, B, C of composed merges) are positive
+            return sym in positive or (sym.endswith(".entries") and sym not in zero)
         terms = {}
         for m, c in v.n.t.items():
             if any(s in zero for s, _ in m):
@@ -36,7 +39,7 @@ class LeafScenario(Scenario):
             terms[m] = c
         if not terms:
             return 0
-        if all(c > 0 and all(s in positive for s, _ in m) for m, c in terms.items()):
+        if all(c > 0 and all(is_pos(s) for s, _ in m) for m, c in terms.items()):
             return 1
         return None
 
